@@ -112,11 +112,11 @@ func drawEntry(t *rapid.T, di *dialectInfo, allowBad bool) logEntry {
 		switch e.bad {
 		case "v1-id>255":
 			f.V2, f.Incompat, f.Compat = false, 0, 0
-			f.ID = uint32(rapid.IntRange(256, 70000).Draw(t, "bigid"))
+			f.ID = gen.UnrepresentableV1ID().Draw(t, "bigid")
 			e.lib = gen.ToLib(f)
 		case "v2-id>=2^24":
 			f.V2 = true
-			f.ID = uint32(rapid.IntRange(1<<24, 1<<25).Draw(t, "bigid"))
+			f.ID = gen.UnrepresentableV2ID().Draw(t, "bigid")
 			e.lib = gen.ToLib(f)
 		case "payload>255":
 			f.Payload = bytes.Repeat([]byte{7}, rapid.IntRange(256, 400).Draw(t, "biglen"))
@@ -540,4 +540,92 @@ func TestC05TlogTotality(t *testing.T) {
 		rec.Case(damaged, evid.Hash(data), "tlog-stream")
 	})
 	rec.Sample("tlog-stream", "log of 0..6 entries with up to 4 substitutions/deletions/insertions")
+}
+
+// TestC20WriterKeepsFrames: the file is timestamp + the frame that was handed over. A log writer with a dialect encodes
+// the message of an entry, it does not touch the rest of the frame: an entry whose checksum field is not the one this
+// dialect would compute (recorded from a peer with another revision of the message, or never filled in) is stored
+// with that checksum, and a reader without a dialect gets exactly that frame back.
+func TestC20WriterKeepsFrames(t *testing.T) {
+	rec := evid.New(t, "C20", "tlog.Writer with a dialect, 1..12 entries carrying decoded dialect messages in v1 and v2 frames whose checksum field is arbitrary (also 0) and, for unsigned v2 frames, with or without left-over signature fields; the file must be the concatenation of BE64(microseconds) and the reference layout of each frame as handed over (payload = reference encoding for the frame's version, checksum as given); a reader without a dialect returns the same frames; non-trivial = an entry whose checksum differs from the dialect's; distinct by hash of the file")
+	rec.Require("checksum-differs-from-the-dialect's", "v1-entry", "v2-entry")
+	dpool := pool(t)
+	evid.Check(t, rec, evid.N(1500, 6000), func(t *rapid.T) {
+		readBufSize = 512
+		di := drawDialect(t, dpool)
+		n := rapid.IntRange(1, 12).Draw(t, "n")
+		var fw recWriter
+		w := &tlog.Writer{ByteWriter: &fw, DialectRW: di.rw}
+		if err := w.Initialize(); err != nil {
+			t.Fatalf("BROKEN: %v", err)
+		}
+		var want []byte
+		var flats []ref.Frame
+		var times []time.Time
+		var cls []string
+		odd := false
+		for i := 0; i < n; i++ {
+			f, lay, val := validFrame(t, di, gen.FrameOpts{Signed: 1}, nil)
+			f.Payload = lay.Encode(val, f.V2)
+			f.Checksum = f.ChecksumFor(lay.CRCExtra)
+			if rapid.IntRange(0, 2).Draw(t, "own_checksum") > 0 {
+				c := uint16(rapid.OneOf(rapid.Just(0), rapid.IntRange(0, 0xFFFF)).Draw(t, "checksum"))
+				if c != f.Checksum {
+					odd = true
+				}
+				f.Checksum = c
+			}
+			lf := gen.ToLib(f)
+			switch ff := lf.(type) {
+			case *frame.V1Frame:
+				ff.Message = val.(message.Message)
+				cls = append(cls, "v1-entry")
+			case *frame.V2Frame:
+				ff.Message = val.(message.Message)
+				cls = append(cls, "v2-entry")
+			}
+			tm := drawTime(t)
+			if err := w.Write(&tlog.Entry{Time: tm, Frame: lf}); err != nil {
+				t.Fatalf("entry %d (%s, checksum %#04x): Write failed: %v", i, lay.MsgName, f.Checksum, err)
+			}
+			want = append(want, be64(tm.UnixMicro())...)
+			want = append(want, f.Bytes()...)
+			flats = append(flats, f)
+			times = append(times, tm)
+		}
+		file := fw.all()
+		if !bytes.Equal(file, want) {
+			evid.ReplayNote("C20", "TestC20WriterKeepsFrames", fmt.Sprintf("file %x\nwant %x", file, want))
+			t.Fatalf("the log file differs from timestamp + frame as handed over:\n got  %x\n want %x", file, want)
+		}
+		entries, rerr := readLog(file, nil)
+		if rerr != io.EOF || len(entries) != n {
+			t.Fatalf("a reader without a dialect gets %d of %d entries and ends with %v", len(entries), n, rerr)
+		}
+		for i, e := range entries {
+			g, _, err := gen.FromLib(e.Frame)
+			if err != nil || !gen.SameFrame(g, flats[i]) || !e.Time.Equal(times[i].Truncate(time.Microsecond)) {
+				t.Fatalf("entry %d read back differently: %v / %s vs %s", i, err, gen.Describe(g), gen.Describe(flats[i]))
+			}
+		}
+		if odd {
+			cls = append(cls, "checksum-differs-from-the-dialect's")
+		}
+		rec.Case(odd, evid.Hash(file), dedupS(cls)...)
+		if odd && rec.WantSample("kept") && len(file) < 200 {
+			rec.Sample("kept", fmt.Sprintf("%x", file))
+		}
+	})
+}
+
+func dedupS(xs []string) []string {
+	seen := map[string]bool{}
+	var out []string
+	for _, x := range xs {
+		if !seen[x] {
+			seen[x] = true
+			out = append(out, x)
+		}
+	}
+	return out
 }
